@@ -516,14 +516,14 @@ func runCase(c Case, dir string) (out Out) {
 	switch c.Kind {
 	case "std":
 		raw := []byte(texts["json"])
-		m := run(rt, func(t any) error { return mapping.UnmarshalJsonBytes(raw, t) })
+		m := run2(rt, func(t any) error { return mapping.UnmarshalJsonBytes(raw, t) })
 		s := run(rt, func(t any) error { return json.Unmarshal(raw, t) })
 		out.Map, out.Std = &m, &s
 	case "mfmt": // mapping's own format front ends (no conf layer: keys are matched exactly)
 		out.MBytes = map[string]Res{
-			"json": run(rt, func(t any) error { return mapping.UnmarshalJsonBytes([]byte(texts["json"]), t) }),
-			"yaml": run(rt, func(t any) error { return mapping.UnmarshalYamlBytes([]byte(texts["yaml"]), t) }),
-			"toml": run(rt, func(t any) error { return mapping.UnmarshalTomlBytes([]byte(texts["toml"]), t) }),
+			"json": run2(rt, func(t any) error { return mapping.UnmarshalJsonBytes([]byte(texts["json"]), t) }),
+			"yaml": run2(rt, func(t any) error { return mapping.UnmarshalYamlBytes([]byte(texts["yaml"]), t) }),
+			"toml": run2(rt, func(t any) error { return mapping.UnmarshalTomlBytes([]byte(texts["toml"]), t) }),
 		}
 		out.MReaders = map[string]Res{
 			"json": run(rt, func(t any) error { return mapping.UnmarshalJsonReader(strings.NewReader(texts["json"]), t) }),
